@@ -345,11 +345,11 @@ def c18_structs(tier):
             ("custom", sets.custom_set('quick')), ("builder", sets.builder_structs('quick')), ("debug", sets.debug_structs('quick')),
             ("mix", sets.mix_set('quick')), ("consts", sets.consts_set('quick'))]
     for name, ss in srcs:
-        st = max(1, len(ss) // 40) if tier == 'quick' else max(1, len(ss) // 400)
+        st = max(1, len(ss) // 150) if tier == 'quick' else 1
         for k, s in enumerate(ss):
             if k % st:
                 continue
-            cap = 10 if tier == 'quick' else 24
+            cap = 16 if tier == 'quick' else 60
             fsel = list(s.fields) if len(s.fields) <= cap else list(s.fields[::max(1, len(s.fields) // cap)][:cap])
             s2 = dataclasses.replace(s, fields=fsel, family=f"DOC:{name}")
             if s2.has_builder and len(s2.fields) != len(s.fields):
